@@ -57,6 +57,7 @@ structure MSt where
   minLen : Nat
   steps : List TStep := []     -- reversed
   m6 : M6 := {}
+  m11 : M11 := {}
   issued : Nat := 0
   fwd : Nat := 0
   events : Nat := 0
@@ -80,9 +81,10 @@ def monStep (m : MSt) (bl : Block) : MSt × List String :=
     let unparsed := bl.outs.any (fun o => (parseObs o).isNone)
     let st : TStep := { req := r, obs := obs }
     let m6 := M6.step m.minLen m.m6 st
-    let fails := m6.fails.drop m.m6.fails.length
+    let m11 := M11.step m.m11 st
+    let fails := m6.fails.drop m.m6.fails.length ++ m11.fails.drop m.m11.fails.length
     let isWrite := match r with | .write .. => true | _ => false
-    ({ m with steps := st :: m.steps, m6 := m6, issued := m.issued + 1, fwd := m.fwd + fwdCount obs,
+    ({ m with steps := st :: m.steps, m6 := m6, m11 := m11, issued := m.issued + 1, fwd := m.fwd + fwdCount obs,
               events := m.events + countThrottled obs,
               cuts := m.cuts + (if isWrite && hasBStop obs then 1 else 0),
               baseFails := m.baseFails + (if obs.any (fun o => match o with | .bStart _ false => true | _ => false) then 1 else 0) },
